@@ -15,7 +15,11 @@
      (acquire; release) BEFORE the section's body;
    - the table follows /repo as of commit 2d6ed35 (error paths of mem.File read the name through
      fileData.Name(); parent mutex released by defer; RemoveAll, Chmod, Chtimes: one write-locked
-     section with a deferred unlock; OpenFile with O_CREATE: openOrCreate; Mkdir: no setFileMode).
+     section with a deferred unlock; Mkdir: no setFileMode) plus the C04 repair of OpenFile and
+     Readdirnames: OpenFile takes mu itself (write-locked with O_CREATE, read-locked otherwise,
+     released by defer) and finishes the handle (O_APPEND seek, O_TRUNC truncate: transient file
+     mutexes) inside that section; Readdirnames takes the base names in the directory's locked
+     section (File.readdirFiles, shared with Readdir) and no longer calls FileInfo.Name() per entry.
      RemoveAll as it was before commit ce143d9 is kept behind [cf_legacy] (the ARa sections): there
      Go's map iteration order is one legal order — the keys present when the loop starts, in
      ascending order; keys inserted later are not visited;
@@ -56,7 +60,7 @@ Inductive cc_aid :=
 | AStatLookup | AStatRead
 | AChmodT | AChmod
 | AChtT | ACht
-| AOfLookup | AOfCreateT | AOfCreate | AOfSeekEnd | AOfTrunc
+| AOfLookupT | AOfLookup | AOfCreateT | AOfCreate
 | ARemoveT | ARemove
 | ARenameT | ARename
 | ARemoveAllT | ARemoveAll
@@ -73,12 +77,13 @@ Inductive cc_instr :=
 (* the locks an action runs under, as read from the source: (mu, a file mutex?, pending defers) *)
 Definition cc_ctx (a : cc_aid) : cc_hmu * bool * list cc_lk :=
   match a with
-  | ACreateT | ACreate | AMkdirCreateT | AMkdirCreate | AOfCreateT | AOfCreate
+  | ACreateT | ACreate | AMkdirCreateT | AMkdirCreate
   | ARaUnregT | ARaUnreg => (HW, false, [])
-  | ARemoveT | ARemove | ARenameT | ARename | ARemoveAllT | ARemoveAll | AChmodT | AChmod | AChtT | ACht => (HW, false, [LkW])
-  | AMkdirCheck | AOpen | AStatLookup | AOfLookup => (HR, false, [])
-  | AStatRead | AOfSeekEnd | AOfTrunc => (HNone, true, [])
-  | ARaScan | ARaNext => (HR, false, [LkR])
+  | ARemoveT | ARemove | ARenameT | ARename | ARemoveAllT | ARemoveAll | AChmodT | AChmod | AChtT | ACht
+  | AOfCreateT | AOfCreate => (HW, false, [LkW])
+  | AMkdirCheck | AOpen | AStatLookup => (HR, false, [])
+  | AStatRead => (HNone, true, [])
+  | ARaScan | ARaNext | AOfLookupT | AOfLookup => (HR, false, [LkR])
   | ARaDelete => (HW, false, [LkR])
   | AHPre _ => (HNone, false, [])
   | AHBody _ => (HNone, true, [])
@@ -125,16 +130,19 @@ Definition cc_perm (o : op) : Z :=
   match o with Mkdir _ p | MkdirAll _ p | OpenFile _ _ p => Z.land p chmod_bits | _ => 0 end.
 Definition cc_flag (o : op) : Z := match o with OpenFile _ f _ => f | _ => 0 end.
 
-(* OpenFile after the handle exists: O_APPEND, O_TRUNC — the code up to the next action *)
-Definition cc_of_next (stage : nat) (f : cc_frame) : list cc_instr :=
-  let flag := cc_flag (fr_op f) in
-  let trunc := flag_has flag o_trunc && flag_has flag (Z.lor o_rdwr o_wronly) in
-  let tr := if trunc then [CcAcq LkF (fr_ref f); CcAct AOfTrunc] else [] in
-  match stage with
-  | O => if flag_has flag o_append then [CcAcq LkF (fr_ref f); CcAct AOfSeekEnd] else tr
-  | S O => tr
-  | _ => []
-  end.
+(* OpenFile, inside its locked section once the handle h on node x exists: the O_APPEND seek
+   (mem.File.Seek: offset := length) and then the O_TRUNC truncate (mem.File.Truncate(0)), each
+   under the file's mutex *)
+Definition cc_of_wants_finish (flag : Z) : bool :=
+  flag_has flag o_append || (flag_has flag o_trunc && flag_has flag (Z.lor o_rdwr o_wronly)).
+Definition cc_of_finish (s : mst) (x h : nat) (flag : Z) : mst :=
+  let s1 := if flag_has flag o_append
+            then let len := match get_node s x with Some n => zlen (ndata n) | None => 0 end in
+                 match nth_error (mhandles s) h with
+                 | Some hd => set_handle s h (set_at hd len) | None => s end
+            else s in
+  if flag_has flag o_trunc && flag_has flag (Z.lor o_rdwr o_wronly)
+  then upd_node s1 x (fun n => with_mtime (mclock s1) (with_data [] n)) else s1.
 
 Definition cc_ra_next (keys : list str) : list cc_instr :=
   match keys with
@@ -243,37 +251,29 @@ Definition cc_sem (a : cc_aid) (f : cc_frame) (s0 : mst) : cc_out :=
   | ACht =>
       let t := match o with Chtimes _ t => t | _ => 0 end in
       let '(s1, r) := m_chtimes s name t in CcCont s1 (fr_set_res f r) []
+  | AOfLookupT =>
+      (* without O_CREATE, mu read-locked: Seek / Truncate take the mutex of the file found *)
+      CcCont s f (cc_touches (if cc_of_wants_finish (cc_flag o) then cc_node_at s name else []) ++ [CcAct AOfLookup])
   | AOfLookup =>
-      (* without O_CREATE: openWrite *)
       let flag := cc_flag o in
       match lookup s name with
       | Some x =>
         let ro := Z.eqb (Z.land flag memfs_access_mask) 0 in
         let '(s1, h) := alloc_handle s (mkH x 0 0 false ro) in
-        let f1 := fr_set_res (fr_set_h (fr_set_ref f x) h) (RHandle h) in
-        CcCont s1 f1 (CcRel LkR :: cc_of_next 0 f1)
-      | None => CcCont s (fr_set_res f (RErr (EW KNotExist))) [CcRel LkR]
+        CcCont (cc_of_finish s1 x h flag) (fr_set_res (fr_set_h (fr_set_ref f x) h) (RHandle h)) []
+      | None => CcCont s (fr_set_res f (RErr (EW KNotExist))) []
       end
   | AOfCreateT => CcCont s f (cc_touches (cc_touch1 s name) ++ [CcAct AOfCreate])
   | AOfCreate =>
-      (* with O_CREATE: openOrCreate — lookup and creation in one write-locked section *)
+      (* with O_CREATE, mu write-locked: lockfreeOpenOrCreate, then the handle is finished *)
       let flag := cc_flag o in
       let ro := Z.eqb (Z.land flag memfs_access_mask) 0 in
       match cc_open_or_create s name flag (cc_perm o) with
-      | None => CcCont s (fr_set_res f (RErr (EW KExist))) [CcRel LkW]
+      | None => CcCont s (fr_set_res f (RErr (EW KExist))) []
       | Some (s1, x) =>
         let '(s2, h) := alloc_handle s1 (mkH x 0 0 false ro) in
-        let f1 := fr_set_res (fr_set_h (fr_set_ref f x) h) (RHandle h) in
-        CcCont s2 f1 (CcRel LkW :: cc_of_next 0 f1)
+        CcCont (cc_of_finish s2 x h flag) (fr_set_res (fr_set_h (fr_set_ref f x) h) (RHandle h)) []
       end
-  | AOfSeekEnd =>
-      let len := match get_node s (fr_ref f) with Some n => zlen (ndata n) | None => 0 end in
-      let s1 := match nth_error (mhandles s) (fr_h f) with
-                | Some hd => set_handle s (fr_h f) (set_at hd len) | None => s end in
-      CcCont s1 f (CcRel LkF :: cc_of_next 1 f)
-  | AOfTrunc =>
-      CcCont (upd_node s (fr_ref f) (fun n => with_mtime (mclock s) (with_data [] n))) f
-             (CcRel LkF :: cc_of_next 2 f)
   | ARemoveT => CcCont s f (cc_touches (cc_touch1 s name) ++ [CcAct ARemove])
   | ARemove =>
       match m_remove s name with
@@ -327,7 +327,7 @@ Definition cc_sem (a : cc_aid) (f : cc_frame) (s0 : mst) : cc_out :=
   | AHBody k =>
       let '(s1, r) := m_step_raw s (op_set_handle o (fr_h f)) in
       let kids := match k with
-                  | HkReaddir | HkReaddirnames =>
+                  | HkReaddir =>     (* the FileInfo accessors the caller uses on the live entries *)
                     match get_node s (fr_ref f) with Some nd => map snd (nkids nd) | None => [] end
                   | HkSeek => if res_is_err r then [fr_ref f] else []    (* SeekEnd to a negative position: Name() *)
                   | _ => []
@@ -365,8 +365,8 @@ Definition cc_begin (legacy : bool) (o : op) (slots : list (option nat)) : cc_fr
   | Create _ => (f, [CcAcq LkW 0%nat; CcAct ACreateT])
   | Mkdir _ _ | MkdirAll _ _ => (f, [CcAcq LkR 0%nat; CcAct AMkdirCheck])
   | Open _ => (f, [CcAcq LkR 0%nat; CcAct AOpen])
-  | OpenFile _ fl _ => if flag_has fl o_create then (f, [CcAcq LkW 0%nat; CcAct AOfCreateT])
-                       else (f, [CcAcq LkR 0%nat; CcAct AOfLookup])
+  | OpenFile _ fl _ => if flag_has fl o_create then (f, [CcAcq LkW 0%nat; CcDefer LkW; CcAct AOfCreateT])
+                       else (f, [CcAcq LkR 0%nat; CcDefer LkR; CcAct AOfLookupT])
   | Remove _ => (f, [CcAcq LkW 0%nat; CcDefer LkW; CcAct ARemoveT])
   | RemoveAll _ => if legacy then (f, [CcAcq LkW 0%nat; CcAct ARaUnregT])
                    else (f, [CcAcq LkW 0%nat; CcDefer LkW; CcAct ARemoveAllT])
@@ -396,7 +396,7 @@ Definition cc_aid_for (a : cc_aid) (o : op) : bool :=
   | (AChmodT | AChmod), Chmod _ _ => true
   | (AChtT | ACht), Chtimes _ _ => true
   | (ARemoveAllT | ARemoveAll), RemoveAll _ => true
-  | (AOfLookup | AOfCreateT | AOfCreate | AOfSeekEnd | AOfTrunc), OpenFile _ _ _ => true
+  | (AOfLookupT | AOfLookup | AOfCreateT | AOfCreate), OpenFile _ _ _ => true
   | (ARemoveT | ARemove), Remove _ => true
   | (ARenameT | ARename), Rename _ _ => true
   | (AHPre _ | AHBody _), _ => match op_handle_of o with Some _ => true | None => false end
@@ -750,16 +750,15 @@ Definition acc_unregister : list cc_access :=
 
 Definition cc_acc (a : cc_aid) : list cc_access :=
   match a with
-  | ACreateT | AMkdirCreateT | AOfCreateT | ARemoveT | ARenameT | ARaUnregT | ARemoveAllT | AChmodT | AChtT => []
+  | ACreateT | AMkdirCreateT | AOfCreateT | AOfLookupT | ARemoveT | ARenameT | ARaUnregT | ARemoveAllT | AChmodT | AChtT => []
   | ACreate => [rd FMap; wr FMap; rdo FDirFlag; wro FData; wro FMtime] ++ acc_register
-  | AOfCreate => [rd FMap; wr FMap] ++ acc_register
-  | AMkdirCheck | AOpen | AStatLookup | AOfLookup => [rd FMap]
+  | AOfCreate => [rd FMap; wr FMap; rdo FData; wro FData; wro FMtime] ++ acc_register
+  | AOfLookup => [rd FMap; rdo FData; wro FData; wro FMtime]      (* Seek reads the length, Truncate writes *)
+  | AMkdirCheck | AOpen | AStatLookup => [rd FMap]
   | AMkdirCreate => [rd FMap; wr FMap] ++ acc_register
   | AStatRead => [rdo FName; rdo FMode; rdo FMtime; rdo FDirFlag; rdo FData]
   | AChmod => [rd FMap; rdo FMode; wro FMode]
   | ACht => [rd FMap; wro FMtime]
-  | AOfSeekEnd => [rdo FData]
-  | AOfTrunc => [wro FData; wro FMtime]
   | ARemove => [rd FMap; wr FMap] ++ acc_unregister
   | ARename => [rd FMap; wr FMap; mkAcc FName true true false true true] ++ acc_unregister ++ acc_register
   | ARemoveAll => [rd FMap; wr FMap] ++ acc_unregister
@@ -782,9 +781,13 @@ Definition cc_acc (a : cc_aid) : list cc_access :=
       | HkStat => [rdo FName; rdo FMode; rdo FMtime; rdo FDirFlag; rdo FData]
       | HkName => [rdo FName]
       | HkSync => []
-      | HkReaddir | HkReaddirnames =>
-          (* memDir.Files() sorts the children by name without their mutexes, then FileInfo accessors *)
+      | HkReaddir =>
+          (* memDir.Files() sorts the children by name without their mutexes (and readdirFiles reads the
+             base names the same way), then the caller's FileInfo accessors *)
           [rdo FMemDir; mkAcc FName false false true false true; rdo FName; rdo FMode; rdo FMtime; rdo FDirFlag; rdo FData]
+      | HkReaddirnames =>
+          (* the same locked section; the names are taken there, under the directory's mutex only *)
+          [rdo FMemDir; mkAcc FName false false true false true]
       end
   | AXList => [rd FMap; rdo FName; rdo FDirFlag; rdo FData]
   end.
@@ -801,8 +804,8 @@ Definition cc_all_aids : list cc_aid :=
   let hks := [HkRead; HkReadAt; HkWrite; HkWriteAt; HkSeek; HkTruncate; HkClose; HkStat; HkName; HkSync;
               HkReaddir; HkReaddirnames] in
   [ACreateT; ACreate; AMkdirCheck; AMkdirCreateT; AMkdirCreate; AOpen; AStatLookup;
-   AStatRead; AChmodT; AChmod; AChtT; ACht; AOfLookup; AOfCreateT; AOfCreate; AOfSeekEnd;
-   AOfTrunc; ARemoveT; ARemove; ARenameT; ARename; ARemoveAllT; ARemoveAll;
+   AStatRead; AChmodT; AChmod; AChtT; ACht; AOfLookupT; AOfLookup; AOfCreateT; AOfCreate;
+   ARemoveT; ARemove; ARenameT; ARename; ARemoveAllT; ARemoveAll;
    ARaUnregT; ARaUnreg; ARaScan; ARaDelete; ARaNext]
   ++ map AHPre hks ++ map AHBody hks ++ [AXList].
 
@@ -843,7 +846,7 @@ Inductive cc_kind := KCreate | KOpenFile | KMkdir | KMkdirAll | KRemove | KRemov
 Definition cc_kind_aids (k : cc_kind) : list cc_aid :=
   match k with
   | KCreate => [ACreate]
-  | KOpenFile => [AOfLookup; AOfCreate; AOfSeekEnd; AOfTrunc]
+  | KOpenFile => [AOfLookup; AOfCreate]
   | KMkdir | KMkdirAll => [AMkdirCheck; AMkdirCreate]
   | KRemove => [ARemove]
   | KRemoveAll => [ARemoveAll]
@@ -878,7 +881,7 @@ Definition cc_locktab : list (string * string) := [
   ("MemMapFs.Mkdir", "mu.RLock mu.RUnlock if{ ret } mu.Lock if{ mu.Unlock ret } call:SetMode call:registerWithParent mu.Unlock ret");
   ("MemMapFs.MkdirAll", "call:Mkdir if{ if{ ret } ret } ret");
   ("MemMapFs.Open", "call:open if{ ret } ret");
-  ("MemMapFs.OpenFile", "if{ call:openOrCreate } else{ call:openWrite } if{ ret } if{ call:Seek if{ call:Close ret } } if{ call:Truncate if{ call:Close ret } } ret");
+  ("MemMapFs.OpenFile", "if{ mu.Lock defer:mu.Unlock call:lockfreeOpenOrCreate } else{ mu.RLock defer:mu.RUnlock } if{ ret } if{ call:Seek if{ call:Close ret } } if{ call:Truncate if{ call:Close ret } } ret");
   ("MemMapFs.Remove", "mu.Lock defer:mu.Unlock if{ call:unRegisterWithParent if{ ret } } else{ ret } ret");
   ("MemMapFs.RemoveAll", "mu.Lock defer:mu.Unlock call:unRegisterWithParent ret");
   ("MemMapFs.Rename", "mu.Lock defer:mu.Unlock if{ if{ ret } call:unRegisterWithParent if{ ret } call:ChangeFileName call:renameDescendants if{ ret } call:registerWithParent } else{ ret } ret");
@@ -886,9 +889,8 @@ Definition cc_locktab : list (string * string) := [
   ("MemMapFs.findDescendants", "func{ call:Name call:Name ret } ret");
   ("MemMapFs.findParent", "call:Name if{ ret } ret");
   ("MemMapFs.lockfreeMkdir", "if{ call:IsDir if{ ret } } else{ call:SetMode call:registerWithParent } ret");
+  ("MemMapFs.lockfreeOpenOrCreate", "if{ if{ ret } ret } call:SetMode call:registerWithParent ret");
   ("MemMapFs.open", "mu.RLock mu.RUnlock if{ ret } ret");
-  ("MemMapFs.openOrCreate", "mu.Lock defer:mu.Unlock if{ if{ ret } ret } call:SetMode call:registerWithParent ret");
-  ("MemMapFs.openWrite", "call:open if{ ret } ret");
   ("MemMapFs.registerWithParent", "if{ ret } call:findParent if{ call:Name call:lockfreeMkdir if{ ret } if{ ret } } parent.Lock defer:parent.Unlock");
   ("MemMapFs.renameDescendants", "call:findDescendants for{ call:Name call:Name call:unRegisterWithParent if{ ret } call:Name call:ChangeFileName call:registerWithParent } ret");
   ("MemMapFs.setFileMode", "mu.Lock defer:mu.Unlock if{ ret } call:SetMode ret");
@@ -900,13 +902,15 @@ Definition cc_locktab : list (string * string) := [
   ("mem.File.Read", "f.fileData.Lock defer:f.fileData.Unlock if{ ret } if{ ret } if{ ret } ret");
   ("mem.File.ReadAt", "if{ call:Name ret } call:Read ret");
   ("mem.File.ReadDir", "call:Readdir if{ ret } ret");
-  ("mem.File.Readdir", "call:IsDir if{ call:Name ret } f.fileData.Lock f.fileData.Unlock ret");
-  ("mem.File.Readdirnames", "call:Readdir for{ call:Name } ret");
+  ("mem.File.Readdir", "call:IsDir if{ call:notDirError ret } call:readdirFiles ret");
+  ("mem.File.Readdirnames", "call:IsDir if{ call:notDirError ret } call:readdirFiles ret");
   ("mem.File.Seek", "if{ ret } switch{ case{ f.fileData.Lock f.fileData.Unlock } } if{ call:Name ret } ret");
   ("mem.File.Truncate", "if{ ret } if{ call:Name ret } if{ ret } f.fileData.Lock defer:f.fileData.Unlock ret");
   ("mem.File.Write", "if{ ret } if{ call:Name ret } if{ ret } f.fileData.Lock defer:f.fileData.Unlock ret");
   ("mem.File.WriteAt", "if{ call:Name ret } call:Write ret");
   ("mem.File.WriteString", "call:Write ret");
+  ("mem.File.notDirError", "call:Name ret");
+  ("mem.File.readdirFiles", "f.fileData.Lock f.fileData.Unlock ret");
   ("mem.FileData.Name", "d.Lock defer:d.Unlock ret");
   ("mem.FileInfo.IsDir", "s.Lock defer:s.Unlock ret");
   ("mem.FileInfo.ModTime", "s.Lock defer:s.Unlock ret");
